@@ -358,6 +358,43 @@ def run(chk):
                        key=f"{a.module.relpath}:{a.name}.{hn}:after-exit-request")
     chk.ob("O9.2x", "exit requests in guarded handlers located", n_x >= 1, model.actor("BenchmarkActor").node, f"{n_x} site(s)")
 
+    # a worker process that dies is reported whichever worker it is: the failure for an exited child is sent under exactly {the child is one of the workers, we are not exiting}
+    chk.rule("O9.3w", "DriverActor.receiveMsg_ChildActorExited sends BenchmarkFailure to race control for every exited child that is a worker (membership in the worker list), unless "
+             "the driver is exiting; no other condition (in particular no truthiness of the worker's index: index 0 is a worker)", 2,
+             "the process of one particular worker dies: nothing reaches race control and the race hangs")
+    cae = DA.methods.get("receiveMsg_ChildActorExited")
+    if cae is None:
+        raise AnchorMissing("DriverActor.receiveMsg_ChildActorExited")
+    cdefs = source.local_defs(cae)
+    fs_ = [c for c in source.calls_in(cae, attr="send") if is_failure_send(c)]
+    chk.ob("O9.3w", "a failure is sent for an exited worker", len(fs_) >= 1, fs_[0] if fs_ else cae, f"{len(fs_)} failure send(s)")
+    for c in fs_:
+        facts_ = [source.inline_node(f_, cdefs) for f_ in pat.fact_nodes(c)]
+        member = [f_ for f_ in facts_ if pat.is_(f_, f"{params_of(cae)[1]}.childAddress in self.driver.workers")]
+        exiting = [f_ for f_ in facts_ if pat.is_(f_, "self.status != 'exiting'")]
+        extra = [u(f_) for f_ in facts_ if f_ not in member and f_ not in exiting]
+        ok = len(member) >= 1 and not extra
+        chk.ob("O9.3w", "the failure is sent for every worker (membership test only)", ok, c, f"conditions: {[u(f_) for f_ in facts_]}" +
+               ("" if ok else f" — extra / other condition(s) {extra}: e.g. the truthiness of the worker's list index excludes worker 0"), key="esrally/driver/driver.py:DriverActor.receiveMsg_ChildActorExited:every-worker")
+
+    # completion is announced LAST: once BenchmarkComplete is on its way race control computes, stores and prints the results; anything that can still fail at the final join point
+    # (closing the driver's metrics store = its last flush, deleting API keys) therefore runs before it
+    chk.rule("O9.6b", "at the final join point nothing fallible follows the call that announces completion (on_benchmark_complete): only logging may come after it", 1,
+             "the last flush of the metrics store fails after completion was announced: results are stored and printed, race() reports success")
+    DRV = drv.cls("Driver")
+    jr_ = drv.methods(DRV).get("joinpoint_reached")
+    if jr_ is None:
+        raise AnchorMissing("Driver.joinpoint_reached")
+    gj = cfg_of(jr_)
+    obc = [c for c in walk_body(jr_) if isinstance(c, ast.Call) and last_attr(c.func) == "on_benchmark_complete"]
+    if not obc:
+        raise AnchorMissing("on_benchmark_complete(...) in Driver.joinpoint_reached")
+    for x in obc:
+        after = [c for c in walk_body(jr_) if isinstance(c, ast.Call) and c is not x and not _log_noise(c) and not any(c in list(ast.walk(a_)) for a_ in x.args)
+                 and gj.node_of(c) is not gj.node_of(x) and gj.path_exists(gj.node_of(x), gj.node_of(c), edge_ok=gj.normal_edge)]
+        chk.ob("O9.6b", "completion announced after the last fallible step of the final join point", not after, after[0] if after else x,
+               "" if not after else f"`{short(after[0], 60)}` can still fail after BenchmarkComplete was sent", key="esrally/driver/driver.py:Driver.joinpoint_reached:complete-last")
+
     # PoisonMessage in classes that create children
     chk.rule("O9.3p", "every actor class that creates child actors has a receiveMsg_PoisonMessage that sends a BenchmarkFailure (or forwards) to its parent on every path", 5,
              "an undeliverable message to a dead child is never reported")
